@@ -462,7 +462,75 @@ func R08(group string) Rule {
 				if n < 4 {
 					c.Unknown("R08", "ReadRows/floor", fn.Pos(), "expected four scan dispatch sites, found %d", n)
 				}
-				// rows_limit is tested at the start of every callback invocation, before a row is added
+				// the dispatch agrees with the shape of the range: a range end that is not handed to
+				// the scan is known to be absent (empty = unbounded in simpleRange), and one that is
+				// handed over is known to be present — Rows gives an empty/nil bound no meaning and the
+				// engines differ on it
+				emptiness := func(at ssa.Instruction, field string) int {
+					for _, f := range core.FactsAtInstr(at) {
+						l, op, r, ok := cmpNorm(f)
+						if !ok {
+							continue
+						}
+						la := lenArg(l)
+						k, isK := core.ConstInt(r)
+						if la == nil || !isK {
+							continue
+						}
+						got := ""
+						if ld, ok := core.Resolve(la).(*ssa.UnOp); ok {
+							if fa, ok := ld.X.(*ssa.FieldAddr); ok {
+								_, got, _ = core.FieldName(fa)
+							}
+						} else if fv, ok := core.Resolve(la).(*ssa.Field); ok {
+							_, got, _ = core.FieldName(fv)
+						}
+						if got != field {
+							continue
+						}
+						switch {
+						case op == token.EQL && k == 0, op == token.LEQ && k == 0, op == token.LSS && k == 1:
+							return 1
+						case op == token.NEQ && k == 0, op == token.GTR && k == 0, op == token.GEQ && k == 1:
+							return -1
+						}
+					}
+					return 0
+				}
+				for _, ci := range core.CallsIn(scope, func(ci *core.CallInfo) bool {
+					return isRowsMethod(ci, "Ascend", "AscendRange", "AscendLessThan", "AscendGreaterOrEqual")
+				}) {
+					usesStartEnd := false
+					for _, a := range ci.Common.Args {
+						if loadsField(a, "start") || loadsField(a, "end") {
+							usesStartEnd = true
+						}
+					}
+					if !usesStartEnd && ci.Method.Name() != "Ascend" {
+						continue // bounds are not a simpleRange's (another caller's convention)
+					}
+					// what dominance can establish: a two-sided scan is reached only with both ends present;
+					// a one-sided scan only when the side it leaves out is absent
+					var want map[string]int
+					switch ci.Method.Name() {
+					case "AscendRange":
+						want = map[string]int{"start": -1, "end": -1}
+					case "AscendLessThan":
+						want = map[string]int{"start": 1}
+					case "AscendGreaterOrEqual":
+						want = map[string]int{"end": 1}
+					}
+					for _, field := range []string{"start", "end"} {
+						w, has := want[field]
+						if !has {
+							continue
+						}
+						c.Check(emptiness(ci.Instr, field) == w, "R08", fmt.Sprintf("ReadRows/%s/range-%s-shape", ci.Method.Name(), field), ci.Instr.Pos(),
+							"the scan variant matches which ends of the range are present",
+							fmt.Sprintf("%s is chosen although the range %s is not known to be %s here: an empty (absent) bound is handed to a bounded scan, or a present bound is ignored — the engines differ on empty bounds", ci.Method.Name(), field, map[int]string{1: "absent", -1: "present"}[w]))
+					}
+				}
+			// rows_limit is tested at the start of every callback invocation, before a row is added
 				isLimit := func(v ssa.Value) bool {
 					return provenanceAll(P, core.PkgBttest, v, func(o ssa.Value) (bool, bool) {
 						if loadsField(o, "RowsLimit") {
